@@ -108,8 +108,13 @@ def gen_spec(rng, audit_types=("CARD_COMPARISON", "ONEAUDIT", "POLLING"), n_cont
         if kind == "irv" and at == "POLLING" and rng.random() < 0.5:
             at = "CARD_COMPARISON"
         test, estim, bet, kw = rng.choice(TESTS_FOR[at])
+        share = rng.choice((0.5, 0.5, 0.25, 0.1, 2 / 3, 0.6)) if kind == "supermajority" else None
+        if bet == "fixed_bet" and share is not None:
+            # fixed_bet's lambda is the user's and must not exceed 1/u (the C01 quantifier); for a super-majority
+            # assorter with bound u_a = 1/(2f) the comparison bound 2/(2 - v/u_a) can reach 2 u_a
+            kw = {"lam": min(0.5, share)}
         contests[cid] = {"kind": kind, "candidates": cands, "winner": cands[:k], "n_winners": k,
-                         "share": rng.choice((0.5, 0.5, 0.25, 0.1, 2 / 3, 0.6)) if kind == "supermajority" else None,
+                         "share": share,
                          "risk_limit": rng.choice((0.01, 0.05, 0.05, 0.1, 0.2, 0.5)), "audit_type": at,
                          "test": test, "estim": estim, "bet": bet, "test_kwargs": dict(kw), "cards": None}
     # styles: which contests each card lists
